@@ -150,6 +150,9 @@ def work(item):
                 acc.exec_violation(PID, topo, f"numpy[{label}]", style, f"variant '{label}' is rejected by is_valid although it has the same elements and connections")
                 continue
             for key in nA:
+                if nA[key] is None or nB[key] is None:
+                    acc.exec_violation(PID, topo, f"numpy[{label}]", style, f"variant '{label}': element {key[0]} has no next state '{key[1]}' after the step")
+                    continue
                 va, vb = symx.leaves(nA[key]), symx.leaves(nB[key])
                 for i, (a, b) in enumerate(zip(va, vb)):
                     def on_sat(model, key=key, i=i, label=label):
